@@ -49,16 +49,19 @@ CONSTANTS Threads,     \* thread ids
           STRIDE,      \* transfer stride
           MAXRES,      \* MAX_RESIZERS
           STAMPCHECK,  \* help_transfer compares the stamp bits of size_ctl (fix b4617bf)
-          ACSTAMPCHECK \* add_count does so too before joining a resize (fix for finding F7)
+          ACSTAMPCHECK, \* add_count does so too before joining a resize (fix for finding F7)
+          TRAVOFF      \* 0 = the traverser as written; 1 = an off-by-one in recover_state (self-test of IterWeak)
 
 VARIABLES tabs, ntabs, table, nextTable, sizeCtl, transferIndex, count,
           node, nextId, lockOwner, pc, idx, loc,
           res, before, doneOps,          \* history: results and real-time order (linearizability)
-          mig, pubs, fins, joins         \* history: resize bookkeeping (C10)
+          mig, pubs, fins, joins,        \* history: resize bookkeeping (C10)
+          amap,                          \* ghost: abstract contents, updated at the commit points
+          ith                            \* ghost: per thread, bookkeeping of its running iterator (C07)
 vars == <<tabs, ntabs, table, nextTable, sizeCtl, transferIndex, count, node, nextId, lockOwner,
-          pc, idx, loc, res, before, doneOps, mig, pubs, fins, joins>>
+          pc, idx, loc, res, before, doneOps, mig, pubs, fins, joins, amap, ith>>
 \* the part of the state that determines future behaviour (history variables are excluded)
-view == <<tabs, ntabs, table, nextTable, sizeCtl, transferIndex, count, node, nextId, lockOwner, pc, idx, loc, res, before>>
+view == <<tabs, ntabs, table, nextTable, sizeCtl, transferIndex, count, node, nextId, lockOwner, pc, idx, loc, res, before, amap, ith>>
 
 NULL == 0
 FWD == -1
@@ -70,12 +73,15 @@ CurOp(t) == Prog[t][idx[t]]
 OpId(t) == <<t, idx[t]>>
 TLen(tb) == tabs[tb].len
 BinI(tb, k) == HashOf[k] % TLen(tb)
-IsRead(o) == o.op \in {"get", "get_key_value", "contains_key"}
+IsRead(o) == o.op \in {"get", "get_key_value", "contains_key", "iter"}
 L0 == [tb |-> 0, b |-> NULL, p |-> NULL, i |-> 0, bound |-> 0, adv |-> FALSE, fin |-> FALSE,
        xt |-> 0, nt |-> 0, n |-> 0, sc |-> 0, c |-> 0, ret |-> "", lo |-> NULL, hi |-> NULL,
-       r |-> NoRes, hint |-> FALSE, after |-> ""]
+       r |-> NoRes, hint |-> FALSE, after |-> "",
+       \* traverser (iter/traverser.rs): stack of <<table, length, index>>, prev node, candidate e
+       stk |-> <<>>, prev |-> NULL, e |-> NULL, ix |-> 0, bi |-> 0, bl |-> 0, bs |-> 0]
 EmptyTab(n) == [len |-> n, bins |-> [j \in 0..n-1 |-> NULL], next |-> 0]
 NoTab == [len |-> 0, bins |-> <<>>, next |-> 0]
+NoIter == [on |-> FALSE, done |-> FALSE, atc |-> {}, ever |-> {}, touched |-> {}, yl |-> <<>>]
 
 \* initial heap: InitKeys[j] lives in node j; nodes of one bin are chained in insertion order
 NK == Len(InitKeys)
@@ -99,14 +105,27 @@ Init ==
   /\ loc = [t \in Threads |-> L0]
   /\ res = <<>> /\ before = {} /\ doneOps = {}
   /\ mig = {} /\ pubs = {} /\ fins = {} /\ joins = {}
+  /\ amap = [k \in DOMAIN HashOf |->
+               IF \E j \in 1..NK : InitKeys[j].k = k
+               THEN LET j == CHOOSE j \in 1..NK : InitKeys[j].k = k IN [v |-> InitKeys[j].v, tag |-> 1, pl |-> InitKeys[j].pl]
+               ELSE Absent]
+  /\ ith = [t \in Threads |-> NoIter]
 
 Goto(t, l) == pc' = [pc EXCEPT ![t] = l]
 SetLoc(t, r) == loc' = [loc EXCEPT ![t] = r]
 UnchHeap == UNCHANGED <<node, nextId, lockOwner>>
 UnchTab == UNCHANGED <<tabs, ntabs, table, nextTable>>
 UnchCtl == UNCHANGED <<sizeCtl, transferIndex, count>>
-UnchRz == UNCHANGED <<mig, pubs, fins, joins>>
-UnchHist == UNCHANGED <<res, before, doneOps, idx, mig, pubs, fins, joins>>
+UnchRz == UNCHANGED <<mig, pubs, fins, joins, amap, ith>>
+UnchHist == UNCHANGED <<res, before, doneOps, idx, mig, pubs, fins, joins, amap, ith>>
+\* commit point of an update: the abstract contents change and every running iterator learns it
+Ghost(k, ent) ==
+  /\ amap' = [amap EXCEPT ![k] = ent]
+  /\ ith' = [u \in Threads |->
+               IF ith[u].on
+               THEN [ith[u] EXCEPT !.touched = @ \cup {k},
+                                   !.ever = IF ent.v # 0 THEN @ \cup {<<k, ent.v>>} ELSE @]
+               ELSE ith[u]]
 
 Finish(t, r) ==
   /\ res' = (OpId(t) :> r) @@ res
@@ -120,12 +139,12 @@ Call(t) ==
   /\ before' = before \cup {<<o, OpId(t)>> : o \in doneOps}
   /\ Goto(t, "LoadTable")
   /\ UNCHANGED <<tabs, ntabs, table, nextTable, sizeCtl, transferIndex, count, node, nextId, lockOwner,
-                 idx, loc, res, doneOps, mig, pubs, fins, joins>>
+                 idx, loc, res, doneOps, mig, pubs, fins, joins, amap, ith>>
 
 (* ------------------------------------------------------------------------ *)
 (* entry of every per-key operation: self.table.load                        *)
 LoadTable(t) ==
-  /\ pc[t] = "LoadTable"
+  /\ pc[t] = "LoadTable" /\ CurOp(t).op \notin {"iter", "clear"}
   /\ IF table = 0
      THEN IF CurOp(t).op \in {"insert", "try_insert", "compute"}
           THEN Goto(t, "InitLoadTable") /\ UNCHANGED loc /\ UNCHANGED <<res, doneOps, idx>>   \* init_table
@@ -201,7 +220,9 @@ PutCas(t) ==      \* cas_bin(null -> new node)
           /\ SetLoc(t, [loc[t] EXCEPT !.c = 1, !.hint = TRUE,
                                       !.r = IF o.op = "try_insert" THEN Res(1, o.v, 0, 0, 0, 0) ELSE NoRes])
           /\ Goto(t, "AcFetch")
-          /\ UNCHANGED <<ntabs, table, nextTable, lockOwner>> /\ UnchCtl /\ UnchHist
+          /\ Ghost(o.k, [v |-> o.v, tag |-> o.tag, pl |-> o.pl])
+          /\ UNCHANGED <<ntabs, table, nextTable, lockOwner>> /\ UnchCtl
+          /\ UNCHANGED <<res, before, doneOps, idx, mig, pubs, fins, joins>>
      ELSE /\ Goto(t, "LoadBin") /\ UNCHANGED loc
           /\ UnchHeap /\ UnchTab /\ UnchCtl /\ UnchHist
 
@@ -230,6 +251,10 @@ Lock(t) ==        \* head.lock.lock()
   /\ lockOwner' = [lockOwner EXCEPT ![loc[t].b] = t] /\ Goto(t, "Reval")
   /\ UNCHANGED <<node, nextId, loc>> /\ UnchTab /\ UnchCtl /\ UnchHist
 
+RECURSIVE KeysOfN(_)
+KeysOfN(p) == IF p = NULL \/ p = FWD THEN {} ELSE {node[p].key} \cup KeysOfN(node[p].next)
+RECURSIVE LenOfN(_)
+LenOfN(p) == IF p = NULL \/ p = FWD THEN 0 ELSE 1 + LenOfN(node[p].next)
 RECURSIVE FindIn(_, _, _, _)
 \* <<node holding k or NULL, its predecessor, number of nodes walked>>
 FindIn(p, pred, k, cnt) ==
@@ -249,7 +274,8 @@ Reval(t) ==
                  /\ node' = [node EXCEPT ![hit].val = o.v, ![hit].pl = o.pl]
                  /\ lockOwner' = [lockOwner EXCEPT ![b] = 0]
                  /\ Finish(t, Res(1, node[hit].val, 0, 0, 0, 0))
-                 /\ UNCHANGED <<nextId, before>> /\ UnchTab /\ UnchCtl /\ UnchRz
+                 /\ Ghost(o.k, [v |-> o.v, tag |-> node[hit].tag, pl |-> o.pl])
+                 /\ UNCHANGED <<nextId, before, mig, pubs, fins, joins>> /\ UnchTab /\ UnchCtl
             [] o.op = "try_insert" /\ hit # NULL ->    \* Exists: nothing written
                  /\ lockOwner' = [lockOwner EXCEPT ![b] = 0]
                  /\ Finish(t, Res(0, node[hit].val, 0, o.v, 0, 0))
@@ -263,7 +289,8 @@ Reval(t) ==
                  /\ SetLoc(t, [loc[t] EXCEPT !.c = 1, !.hint = TRUE,
                                              !.r = IF o.op = "try_insert" THEN Res(1, o.v, 0, 0, 0, 0) ELSE NoRes])
                  /\ Goto(t, "AcFetch")
-                 /\ UnchTab /\ UnchCtl /\ UnchHist
+                 /\ Ghost(o.k, [v |-> o.v, tag |-> o.tag, pl |-> o.pl])
+                 /\ UnchTab /\ UnchCtl /\ UNCHANGED <<res, before, doneOps, idx, mig, pubs, fins, joins>>
             [] o.op \in {"remove", "remove_entry", "compute"} /\ hit = NULL ->
                  /\ lockOwner' = [lockOwner EXCEPT ![b] = 0]
                  /\ Finish(t, NoRes)
@@ -272,7 +299,8 @@ Reval(t) ==
                  /\ node' = [node EXCEPT ![hit].val = o.v, ![hit].pl = IF o.f = "inc" THEN @ + 1 ELSE o.pl]
                  /\ lockOwner' = [lockOwner EXCEPT ![b] = 0]
                  /\ Finish(t, Res(1, o.v, 0, 0, node[hit].val, IF o.f = "inc" THEN node[hit].pl + 1 ELSE o.pl))
-                 /\ UNCHANGED <<nextId, before>> /\ UnchTab /\ UnchCtl /\ UnchRz
+                 /\ Ghost(o.k, [v |-> o.v, tag |-> node[hit].tag, pl |-> IF o.f = "inc" THEN node[hit].pl + 1 ELSE o.pl])
+                 /\ UNCHANGED <<nextId, before, mig, pubs, fins, joins>> /\ UnchTab /\ UnchCtl
             [] OTHER ->                                  \* removal: unlink (pred.next.store / store_bin)
                  /\ IF pred = NULL
                     THEN tabs' = [tabs EXCEPT ![tb].bins[i] = node[hit].next] /\ UNCHANGED node
@@ -282,7 +310,9 @@ Reval(t) ==
                         !.r = IF o.op = "compute" THEN Res(0, 0, 0, 0, node[hit].val, 0)
                               ELSE Res(1, node[hit].val, IF o.op = "remove_entry" THEN node[hit].tag ELSE 0, 0, 0, 0)])
                  /\ Goto(t, "AcFetch")
-                 /\ UNCHANGED <<ntabs, table, nextTable, nextId>> /\ UnchCtl /\ UnchHist
+                 /\ Ghost(o.k, Absent)
+                 /\ UNCHANGED <<ntabs, table, nextTable, nextId>> /\ UnchCtl
+                 /\ UNCHANGED <<res, before, doneOps, idx, mig, pubs, fins, joins>>
 
 (* ---- add_count(n, hint) --------------------------------------------------- *)
 AcFetch(t) ==     \* count.fetch_add / fetch_sub; the new count as the (fixed) code computes it
@@ -328,7 +358,7 @@ AcCasJoin(t) ==
           /\ SetLoc(t, [loc[t] EXCEPT !.ret = "AcReload", !.i = 0, !.bound = 0, !.adv = TRUE, !.fin = FALSE])
           /\ Goto(t, "XClaim")
      ELSE /\ UNCHANGED <<sizeCtl, loc, joins>> /\ Goto(t, "AcReload")
-  /\ UNCHANGED <<transferIndex, count, res, before, doneOps, idx, mig, pubs, fins>> /\ UnchHeap /\ UnchTab
+  /\ UNCHANGED <<transferIndex, count, res, before, doneOps, idx, mig, pubs, fins, amap, ith>> /\ UnchHeap /\ UnchTab
 AcCasStart(t) ==
   /\ pc[t] = "AcCasStart"
   /\ IF sizeCtl = loc[t].sc
@@ -348,7 +378,10 @@ HLoadNt(t) ==     \* table.next_table
   /\ SetLoc(t, [loc[t] EXCEPT !.nt = tabs[loc[t].tb].next, !.xt = loc[t].tb, !.n = TLen(loc[t].tb)])
   /\ Goto(t, "HLoopNt")
   /\ UnchHeap /\ UnchTab /\ UnchCtl /\ UnchHist
-HExit(t) == SetLoc(t, [loc[t] EXCEPT !.tb = loc[t].nt]) /\ Goto(t, "LoadBin")
+HExit(t) ==
+  IF CurOp(t).op = "clear"
+  THEN SetLoc(t, [loc[t] EXCEPT !.tb = loc[t].nt, !.ix = 0]) /\ Goto(t, "ClrLoadBin")   \* idx = 0 in the new table
+  ELSE SetLoc(t, [loc[t] EXCEPT !.tb = loc[t].nt]) /\ Goto(t, "LoadBin")
 HLoopNt(t) ==     \* next_table == self.next_table.load()
   /\ pc[t] = "HLoopNt"
   /\ IF loc[t].nt = nextTable THEN Goto(t, "HLoopTable") /\ UNCHANGED loc ELSE HExit(t)
@@ -376,7 +409,7 @@ HCasJoin(t) ==
           /\ SetLoc(t, [loc[t] EXCEPT !.ret = "HExitA", !.i = 0, !.bound = 0, !.adv = TRUE, !.fin = FALSE])
           /\ Goto(t, "XClaim")
      ELSE /\ UNCHANGED <<sizeCtl, loc, joins>> /\ Goto(t, "HLoopNt")
-  /\ UNCHANGED <<transferIndex, count, res, before, doneOps, idx, mig, pubs, fins>> /\ UnchHeap /\ UnchTab
+  /\ UNCHANGED <<transferIndex, count, res, before, doneOps, idx, mig, pubs, fins, amap, ith>> /\ UnchHeap /\ UnchTab
 HExitA(t) == /\ pc[t] = "HExitA" /\ HExit(t) /\ UnchHeap /\ UnchTab /\ UnchCtl /\ UnchHist
 
 (* ---- transfer(loc.xt, loc.nt) --------------------------------------------- *)
@@ -430,7 +463,7 @@ XCasLeave(t) ==   \* size_ctl.compare_exchange(sc, sc - 1); the last one out fin
              ELSE /\ SetLoc(t, [l EXCEPT !.fin = TRUE, !.adv = TRUE, !.i = l.n]) /\ Goto(t, "XClaim")
                   /\ fins' = fins \cup {<<StampN(l.sc), t>>}
      ELSE UNCHANGED <<sizeCtl, loc, fins>> /\ Goto(t, "XCheck")
-  /\ UNCHANGED <<transferIndex, count, res, before, doneOps, idx, mig, pubs, joins>> /\ UnchHeap /\ UnchTab
+  /\ UNCHANGED <<transferIndex, count, res, before, doneOps, idx, mig, pubs, joins, amap, ith>> /\ UnchHeap /\ UnchTab
 XLoadBin(t) ==
   /\ pc[t] = "XLoadBin"
   /\ LET l == loc[t]  b == tabs[l.xt].bins[l.i] IN
@@ -448,7 +481,7 @@ XCasFwd(t) ==     \* cas_bin(i, null, moved)  (get_moved sets table.next_table f
           /\ mig' = mig \cup {<<l.xt, l.i, t>>}
           /\ SetLoc(t, [l EXCEPT !.adv = TRUE]) /\ Goto(t, "XClaim")
      ELSE /\ UNCHANGED <<tabs, mig>> /\ SetLoc(t, [l EXCEPT !.adv = FALSE]) /\ Goto(t, "XClaim")
-  /\ UNCHANGED <<ntabs, table, nextTable, res, before, doneOps, idx, pubs, fins, joins>> /\ UnchHeap /\ UnchCtl
+  /\ UNCHANGED <<ntabs, table, nextTable, res, before, doneOps, idx, pubs, fins, joins, amap, ith>> /\ UnchHeap /\ UnchCtl
 XLock(t) ==
   /\ pc[t] = "XLock" /\ lockOwner[loc[t].b] = 0
   /\ lockOwner' = [lockOwner EXCEPT ![loc[t].b] = t] /\ Goto(t, "XReval")
@@ -499,20 +532,120 @@ XStoreFwd(t) ==   \* table.store_bin(i, moved); unlock
      /\ mig' = mig \cup {<<l.xt, l.i, t>>}
      /\ lockOwner' = [lockOwner EXCEPT ![l.b] = 0]
      /\ SetLoc(t, [l EXCEPT !.adv = TRUE]) /\ Goto(t, "XClaim")
-  /\ UNCHANGED <<ntabs, table, nextTable, node, nextId, res, before, doneOps, idx, pubs, fins, joins>> /\ UnchCtl
+  /\ UNCHANGED <<ntabs, table, nextTable, node, nextId, res, before, doneOps, idx, pubs, fins, joins, amap, ith>> /\ UnchCtl
 XClearNext(t) ==  \* self.next_table.store(null)
   /\ pc[t] = "XClearNext" /\ nextTable' = 0 /\ Goto(t, "XSwapTable")
   /\ UNCHANGED <<tabs, ntabs, table, loc>> /\ UnchHeap /\ UnchCtl /\ UnchHist
 XSwapTable(t) ==  \* self.table.swap(next_table); retire the old one
   /\ pc[t] = "XSwapTable"
   /\ table' = loc[t].nt /\ pubs' = pubs \cup {<<loc[t].xt, table, loc[t].nt, t>>} /\ Goto(t, "XStoreSc")
-  /\ UNCHANGED <<tabs, ntabs, nextTable, loc, res, before, doneOps, idx, mig, fins, joins>> /\ UnchHeap /\ UnchCtl
+  /\ UNCHANGED <<tabs, ntabs, nextTable, loc, res, before, doneOps, idx, mig, fins, joins, amap, ith>> /\ UnchHeap /\ UnchCtl
 XStoreSc(t) ==    \* size_ctl.store(1.5 n)
   /\ pc[t] = "XStoreSc" /\ sizeCtl' = 2 * loc[t].n - (loc[t].n \div 2) /\ Goto(t, loc[t].ret)
   /\ UNCHANGED <<transferIndex, count, loc>> /\ UnchHeap /\ UnchTab /\ UnchHist
 
+
+
+(* ---- clear(): bin by bin; the null store is the commit point of every entry of the bin - *)
+RECURSIVE GhostAll(_, _, _)
+GhostAll(ks, am, it) ==     \* remove every key of ks from the ghost contents
+  IF ks = {} THEN <<am, it>>
+  ELSE LET k == CHOOSE k \in ks : TRUE IN
+       GhostAll(ks \ {k}, [am EXCEPT ![k] = Absent],
+                [u \in Threads |-> IF it[u].on THEN [it[u] EXCEPT !.touched = @ \cup {k}] ELSE it[u]])
+ClrLoadTable(t) ==
+  /\ pc[t] = "LoadTable" /\ CurOp(t).op = "clear"
+  /\ IF table = 0 THEN Finish(t, NoRes)
+     ELSE SetLoc(t, [loc[t] EXCEPT !.tb = table, !.ix = 0, !.c = 0]) /\ Goto(t, "ClrLoadBin") /\ UNCHANGED <<res, doneOps, idx>>
+  /\ UnchHeap /\ UnchTab /\ UnchCtl /\ UNCHANGED before /\ UnchRz
+ClrLoadBin(t) ==
+  /\ pc[t] = "ClrLoadBin"
+  /\ LET l == loc[t] IN
+     IF l.ix >= TLen(l.tb)
+     THEN \* done: add_count(delta, None) if anything was removed
+          IF l.c = 0 THEN Finish(t, NoRes)
+          ELSE SetLoc(t, [l EXCEPT !.hint = FALSE, !.r = NoRes]) /\ Goto(t, "AcFetch") /\ UNCHANGED <<res, doneOps, idx>>
+     ELSE LET b == tabs[l.tb].bins[l.ix] IN
+          /\ UNCHANGED <<res, doneOps, idx>>
+          /\ IF b = NULL THEN SetLoc(t, [l EXCEPT !.ix = l.ix + 1]) /\ UNCHANGED pc
+             ELSE IF b = FWD THEN SetLoc(t, [l EXCEPT !.b = b]) /\ Goto(t, "HLoadNt")
+             ELSE SetLoc(t, [l EXCEPT !.b = b]) /\ Goto(t, "ClrLock")
+  /\ UnchHeap /\ UnchTab /\ UnchCtl /\ UNCHANGED before /\ UnchRz
+ClrLock(t) ==
+  /\ pc[t] = "ClrLock" /\ lockOwner[loc[t].b] = 0
+  /\ lockOwner' = [lockOwner EXCEPT ![loc[t].b] = t] /\ Goto(t, "ClrReval")
+  /\ UNCHANGED <<node, nextId, loc>> /\ UnchTab /\ UnchCtl /\ UnchHist
+ClrReval(t) ==    \* still the head? store_bin(idx, null); unlock; (walk and retire the nodes)
+  /\ pc[t] = "ClrReval"
+  /\ LET l == loc[t]  b == l.b IN
+     IF tabs[l.tb].bins[l.ix] # b
+     THEN /\ lockOwner' = [lockOwner EXCEPT ![b] = 0] /\ Goto(t, "ClrLoadBin")
+          /\ UNCHANGED <<loc, tabs, amap, ith>>
+     ELSE LET g == GhostAll(KeysOfN(b), amap, ith) IN
+          /\ tabs' = [tabs EXCEPT ![l.tb].bins[l.ix] = NULL]
+          /\ lockOwner' = [lockOwner EXCEPT ![b] = 0]
+          /\ amap' = g[1] /\ ith' = g[2]
+          /\ SetLoc(t, [l EXCEPT !.c = l.c - LenOfN(b), !.ix = l.ix + 1]) /\ Goto(t, "ClrLoadBin")
+  /\ UNCHANGED <<ntabs, table, nextTable, node, nextId, res, before, doneOps, idx, mig, pubs, fins, joins>> /\ UnchCtl
+
+(* ---- iterators: NodeIter (iter/traverser.rs) -------------------------------- *)
+ItNew(t) ==       \* HashMap::iter: self.table.load; the iterator exists from here on
+  /\ pc[t] = "LoadTable" /\ CurOp(t).op = "iter"
+  /\ LET n == IF table = 0 THEN 0 ELSE TLen(table) IN
+     SetLoc(t, [loc[t] EXCEPT !.tb = table, !.stk = <<>>, !.prev = NULL, !.e = NULL, !.ix = 0, !.bi = 0, !.bl = n, !.bs = n])
+  /\ ith' = [ith EXCEPT ![t] = [on |-> TRUE, done |-> FALSE, atc |-> {k \in DOMAIN amap : Present(amap, k)},
+                                ever |-> {<<k, amap[k].v>> : k \in {c \in DOMAIN amap : Present(amap, c)}},
+                                touched |-> {}, yl |-> <<>>]]
+  /\ Goto(t, "ItNext")
+  /\ UnchHeap /\ UnchTab /\ UnchCtl /\ UNCHANGED <<res, before, doneOps, idx, mig, pubs, fins, joins, amap>>
+ItNext(t) ==      \* next(): prev.next.load (if there is a previous node)
+  /\ pc[t] = "ItNext"
+  /\ SetLoc(t, [loc[t] EXCEPT !.e = IF loc[t].prev = NULL THEN NULL ELSE node[loc[t].prev].next])
+  /\ Goto(t, "ItLoop")
+  /\ UnchHeap /\ UnchTab /\ UnchCtl /\ UnchHist
+\* index arithmetic after looking at bin i of a table of n bins (recover_state / base stepping)
+RECURSIVE Recover(_, _, _, _)
+Recover(stk, ix, tb, n) ==    \* <<stack, index, table, n>> after popping the frames that are done
+  IF stk = <<>> THEN <<stk, ix, tb, n>>
+  ELSE LET s == stk[Len(stk)] IN
+       IF ix + s[2] + TRAVOFF < n THEN <<stk, ix + s[2], tb, n>>
+       ELSE Recover(SubSeq(stk, 1, Len(stk) - 1), s[3], s[1], s[2])
+Advance(l, n) ==
+  IF l.stk # <<>>
+  THEN LET r == Recover(l.stk, l.ix, l.tb, n) IN
+       IF r[1] # <<>> THEN [l EXCEPT !.stk = r[1], !.ix = r[2], !.tb = r[3]]
+       ELSE LET ix2 == r[2] + l.bs IN
+            IF ix2 >= r[4] THEN [l EXCEPT !.stk = r[1], !.tb = r[3], !.bi = l.bi + 1, !.ix = l.bi + 1]
+            ELSE [l EXCEPT !.stk = r[1], !.tb = r[3], !.ix = ix2]
+  ELSE LET ix2 == l.ix + l.bs IN
+       IF ix2 >= n THEN [l EXCEPT !.bi = l.bi + 1, !.ix = l.bi + 1] ELSE [l EXCEPT !.ix = ix2]
+ItLoop(t) ==      \* one turn of the loop: return e, or end, or t.bin(i)
+  /\ pc[t] = "ItLoop"
+  /\ LET l == loc[t] IN
+     IF l.e # NULL
+     THEN /\ SetLoc(t, [l EXCEPT !.prev = l.e]) /\ Goto(t, "ItYield") /\ UNCHANGED <<res, doneOps, idx, ith>>
+     ELSE IF l.bi >= l.bl \/ l.tb = 0 \/ TLen(l.tb) <= l.ix
+          THEN /\ Finish(t, NoRes) /\ ith' = [ith EXCEPT ![t].on = FALSE, ![t].done = TRUE]
+          ELSE LET n == TLen(l.tb)  b == tabs[l.tb].bins[l.ix] IN
+               /\ UNCHANGED <<res, doneOps, idx, ith>>
+               /\ IF b = FWD
+                  THEN SetLoc(t, [l EXCEPT !.b = b]) /\ Goto(t, "ItDescend")
+                  ELSE SetLoc(t, [Advance(l, n) EXCEPT !.e = b]) /\ UNCHANGED pc
+  /\ UnchHeap /\ UnchTab /\ UnchCtl /\ UNCHANGED <<before, mig, pubs, fins, joins, amap>>
+ItDescend(t) ==   \* forwarding marker: t.next_table; push_state(t, i, n)
+  /\ pc[t] = "ItDescend"
+  /\ LET l == loc[t] IN
+     SetLoc(t, [l EXCEPT !.tb = tabs[l.tb].next, !.prev = NULL, !.stk = Append(l.stk, <<l.tb, TLen(l.tb), l.ix>>)])
+  /\ Goto(t, "ItLoop")
+  /\ UnchHeap /\ UnchTab /\ UnchCtl /\ UnchHist
+ItYield(t) ==     \* node.value.load: the pair handed to the caller
+  /\ pc[t] = "ItYield"
+  /\ ith' = [ith EXCEPT ![t].yl = Append(@, <<node[loc[t].prev].key, node[loc[t].prev].val>>)]
+  /\ Goto(t, "ItNext") /\ UNCHANGED loc
+  /\ UnchHeap /\ UnchTab /\ UnchCtl /\ UNCHANGED <<res, before, doneOps, idx, mig, pubs, fins, joins, amap>>
+
 Step(t) ==
-   \/ Call(t) \/ LoadTable(t)
+   \/ Call(t) \/ LoadTable(t) \/ ClrLoadTable(t) \/ ClrLoadBin(t) \/ ClrLock(t) \/ ClrReval(t) \/ ItNew(t) \/ ItNext(t) \/ ItLoop(t) \/ ItDescend(t) \/ ItYield(t)
    \/ InitLoadTable(t) \/ InitLoadSc(t) \/ InitSpin(t) \/ InitCasSc(t) \/ InitRecheck(t) \/ InitStoreTable(t) \/ InitStoreSc(t)
    \/ LoadBin(t) \/ GetFwd(t) \/ PutCas(t) \/ TiFast(t) \/ Walk(t) \/ LoadVal(t) \/ Lock(t) \/ Reval(t)
    \/ AcFetch(t) \/ AcLoadSc(t) \/ AcLoadTable(t) \/ AcLoadNt(t) \/ AcLoadTi(t) \/ AcCasJoin(t) \/ AcCasStart(t) \/ AcReload(t)
@@ -543,7 +676,10 @@ Lin(m, remaining) ==
         /\ \A o2 \in remaining : <<o2, o>> \notin before
         /\ Matches(OpOf(o), res[o], ApplyResult(m, OpOf(o)), FALSE)
         /\ Lin(ApplyState(m, OpOf(o)), remaining \ {o})
-Linearizable == AllDone => Lin(Abs0, AllOps)
+\* (iterations and clear() are not atomic: they are judged by IterWeak / GhostOK / QuiescentOK; programs
+\* containing clear() are checked without Linearizable)
+HasClear == \E o \in AllOps : OpOf(o).op = "clear"
+Linearizable == (AllDone /\ ~HasClear) => Lin(Abs0, {o \in AllOps : OpOf(o).op # "iter"})
 
 \* C11 (safety part): no reachable state in which an unfinished thread set is stuck
 NoDeadlock == ~AllDone => ENABLED Next
@@ -576,6 +712,18 @@ QuiescentOK == AllDone =>
              /\ LenOf(tabs[table].bins[i]) = Cardinality(KeysOf(tabs[table].bins[i]))     \* no key twice
         /\ count = Cardinality(UNION {KeysOf(tabs[table].bins[i]) : i \in 0..TLen(table)-1})
    /\ table = 0 => count = 0
+
+\* C07: a finished iteration yielded exactly once every key that was present at its creation and
+\* untouched throughout, and only pairs that were in the map at some moment since its creation
+Count(sq, k) == Cardinality({i \in 1..Len(sq) : sq[i][1] = k})
+IterWeak ==
+  \A t \in Threads : ith[t].done =>
+    /\ \A k \in ith[t].atc \ ith[t].touched : Count(ith[t].yl, k) = 1
+    /\ \A i \in 1..Len(ith[t].yl) : ith[t].yl[i] \in ith[t].ever
+\* the ghost contents agree with what lookups find at quiescence
+GhostOK == AllDone =>
+  \A k \in DOMAIN amap :
+     Present(amap, k) <=> (table # 0 /\ k \in KeysOf(tabs[table].bins[HashOf[k] % TLen(table)]))
 
 \* C14: the table never shrinks; it is replaced only by one of twice the length
 NeverShrinks == [][table' # table => (table = 0 \/ TLen(table') = 2 * TLen(table))]_vars
